@@ -391,3 +391,6 @@ def run(ctx):
     from .c05 import check_generated_value_tests
     check_generated_value_tests(ctx, "R14.6")
 
+    # ------------------------------------------------------------------ R14.7 (sibling rule) what the JSON packer serialises was validated
+    ctx.import_rule("C05", "R5.4", "R14.7", "the JSON form of a digest is its hex attributes: a rejected assignment must leave them unchanged, or the line carries a value the reader refuses")
+
